@@ -24,7 +24,7 @@ from sim.world import Run
 
 ID = "C25"
 LEVEL = "exploration"
-RUNS = {"quick": 30000, "thorough": 400000}
+RUNS = {"quick": 30000, "thorough": 2400000}
 BUDGET = {"quick": 100.0, "thorough": 3300.0}
 RULE = ("one run = one seeded tunnel session with overlapping failure operations and a user disconnect placed "
         "absolutely or trigger-relative; non-trivial = at least one failure operation or fault fired; distinct = "
